@@ -28,3 +28,5 @@ def rules(ctx):
     S.create_only_when_empty_rules(ctx)
     S.flush_take_rules(ctx)
     S.open_reads_within_length_rules(ctx)
+    S.cache_reset_rules(ctx)
+    S.c01_r3_owners(ctx)
